@@ -176,6 +176,7 @@ package trzsz
 
 //@ func trzszBuffer.readLine
 //@   requires tbWF(b)
+//@   assigns b.nextBuf, b.nextIdx, b.timeout, b.newTimeout, recvd, bufLen, bufCap, bufArr, elemsof("byte")
 //@   ensures tbWF(b)
 //@   ensures forall o int {recvd[o]} :: o != b ==> recvd[o] == old(recvd)[o]
 //@   # the cursor stops right after the line feed that ended the line; no Ctrl-C was passed over
@@ -202,6 +203,7 @@ package trzsz
 
 //@ func trzszBuffer.readBinary
 //@   requires tbWF(b)
+//@   assigns b.nextBuf, b.nextIdx, b.timeout, b.newTimeout, recvd, bufLen, bufCap, bufArr, elemsof("byte")
 //@   ensures tbWF(b)
 //@   ensures forall o int {recvd[o]} :: o != b ==> recvd[o] == old(recvd)[o]
 //@   # exactly size bytes, the next size bytes of the stream, whatever the chunking
@@ -242,4 +244,350 @@ package trzsz
 //@   ensures forall j int {r0[j]} :: 0 <= j && j < len(r0) ==> r0[j] == G[b][old(cur(b)) + j]
 //@   ensures old(b.nextBuf != nil && b.nextIdx < len(b.nextBuf)) ==> recvd == old(recvd) && len(r0) > 0
 //@   ensures r0 == nil ==> recvd == old(recvd)
+//@ end
+
+// ===========================================================================
+// C07 / C09 / C10  receiving files: names, destination containment, clean-up
+// (comm.go, transfer.go, archive.go). Ghost file system and path predicates are
+// declared, with every assumption about them, in /verif/specs/trusted.spec.
+// ===========================================================================
+
+//@ pure allPlain(a []string) bool = forall i int {a[i]} :: 0 <= i && i < len(a) ==> plainName(a[i])
+
+//@ # nothing that existed when the receive started has disappeared (no deletion on the success path)
+//@ pure fsMono() bool = forall q string {fsExists[q]} :: fsExists0[q] ==> fsExists[q]
+
+//@ pure noClobber(t *trzszTransfer) bool = !t.transferConfig.Overwrite
+
+//@ # every path recorded for clean-up is inside the destination (C09) ...
+//@ pure createdIn(t *trzszTransfer) bool = \
+//@     forall i int {t.createdFiles[i]} :: 0 <= i && i < len(t.createdFiles) ==> within(destDir, t.createdFiles[i])
+//@ # ... and was made by this transfer (C10)
+//@ pure createdMade(t *trzszTransfer) bool = \
+//@     forall i int {t.createdFiles[i]} :: 0 <= i && i < len(t.createdFiles) ==> madeByUs[t.createdFiles[i]]
+
+//@ # one fresh top-level name per source path id, chosen when nothing of that name existed
+//@ pure nameMapWF(t *trzszTransfer) bool = \
+//@     forall k int {has(t.fileNameMap, k)} :: has(t.fileNameMap, k) ==> \
+//@         plainName(t.fileNameMap[k]) && !fsExists0[pjoin(destDir, t.fileNameMap[k])]
+
+//@ func isValidFileName pure
+//@   ensures [C07,C09] r0 ==> plainName(name)
+//@   loop 1
+//@     invariant 0 <= i && i <= len(name)
+//@     invariant forall k int {name[k]} :: 0 <= k && k < i ==> name[k] != 47
+//@ end
+
+//@ func unmarshalSourceFile pure
+//@   ensures err == nil ==> r0 != nil && len(r0.RelPath) >= 1
+//@   ensures [C07,C09] err == nil ==> allPlain(r0.RelPath)
+//@   ensures err == nil ==> r0 > old(alloc()) && ref(r0.RelPath) > old(alloc())
+//@   ensures fsExists == old(fsExists) && madeByUs == old(madeByUs)
+//@   loop 1
+//@     invariant 0 <= #i && #i <= len(file.RelPath)
+//@     invariant forall k int {file.RelPath[k]} :: 0 <= k && k < #i ==> plainName(file.RelPath[k])
+//@ end
+
+//@ func getNewName
+//@   assigns nothing
+//@   ensures [C07] err == nil ==> !fsExists[pjoin(path, r0)]
+//@   ensures [C07,C09] err == nil && plainName(name) ==> plainName(r0)
+//@   loop 1
+//@     invariant 0 <= i && i <= 1000
+//@ end
+
+//@ func trzszTransfer.addCreatedFiles
+//@   requires [C09] createdIn(t)
+//@   requires [C10] createdMade(t)
+//@   requires [C09] within(destDir, path)
+//@   requires [C10] madeByUs[path]
+//@   assigns t.createdFiles, elemsof("string")
+//@   ensures [C09] createdIn(t)
+//@   ensures [C10] createdMade(t)
+//@   ensures forall r int {heap("string")[r]} :: r != old(ref(t.createdFiles)) && r <= old(alloc()) ==> heap("string")[r] == old(heap("string"))[r]
+//@ end
+
+//@ func trzszTransfer.doCreateFile
+//@   nilable perm
+//@   requires [C09] within(destDir, path)
+//@   requires [C09] createdIn(t)
+//@   requires [C10] createdMade(t)
+//@   requires [C07] fsMono()
+//@   requires [C07] noClobber(t) ==> !fsExists0[rootOf(path)]
+//@   assigns t.createdFiles, elemsof("string"), fsExists, madeByUs
+//@   ensures [C09] createdIn(t)
+//@   ensures [C10] createdMade(t)
+//@   ensures [C07] fsMono()
+//@   ensures r1 == nil ==> r0 != nil
+//@   ensures forall r int {heap("string")[r]} :: r != old(ref(t.createdFiles)) && r <= old(alloc()) ==> heap("string")[r] == old(heap("string"))[r]
+//@ end
+
+//@ func trzszTransfer.doCreateDirectory
+//@   nilable perm
+//@   requires [C09] within(destDir, path)
+//@   requires [C09] createdIn(t)
+//@   requires [C10] createdMade(t)
+//@   requires [C07] fsMono()
+//@   requires [C07] noClobber(t) ==> !fsExists0[rootOf(path)]
+//@   assigns t.createdFiles, elemsof("string"), fsExists, madeByUs
+//@   ensures [C09] createdIn(t)
+//@   ensures [C10] createdMade(t)
+//@   ensures [C07] fsMono()
+//@   ensures forall r int {heap("string")[r]} :: r != old(ref(t.createdFiles)) && r <= old(alloc()) ==> heap("string")[r] == old(heap("string"))[r]
+//@ end
+
+//@ func trzszTransfer.deleteCreatedFiles
+//@   requires [C09] createdIn(t)
+//@   requires [C10] createdMade(t)
+//@   loop 1
+//@     invariant [C09] createdIn(t)
+//@     invariant [C10] createdMade(t)
+//@     invariant len(t.createdFiles) > 0 ==> ref(deletedFiles) != ref(t.createdFiles)
+//@     invariant ref(deletedFiles) <= alloc()
+//@ end
+
+//@ func trzszTransfer.createFile
+//@   nilable perm
+//@   requires same(path, destDir) && within(destDir, destDir) && plainName(fileName)
+//@   requires [C09] createdIn(t)
+//@   requires [C10] createdMade(t)
+//@   requires [C07] fsMono()
+//@   assigns t.createdFiles, elemsof("string"), fsExists, madeByUs
+//@   ensures [C09] createdIn(t)
+//@   ensures [C10] createdMade(t)
+//@   ensures [C07] fsMono()
+//@   ensures [C07,C09] r2 == nil ==> plainName(r1)
+//@   ensures r2 == nil && !noClobber(t) ==> r1 == fileName
+//@ end
+
+//@ # everything the receiving side relies on between two file-system operations
+//@ pure recvWF09(t *trzszTransfer) bool = createdIn(t) && within(destDir, destDir)
+//@ pure recvWF07(t *trzszTransfer) bool = fsMono() && nameMapWF(t) && (noClobber(t) ==> t.fileNameMap != nil)
+//@ pure recvWF10(t *trzszTransfer) bool = createdMade(t)
+
+//@ func trzszTransfer.createDirOrFile
+//@   requires same(path, destDir)
+//@   requires [C09] recvWF09(t)
+//@   requires [C07] recvWF07(t)
+//@   requires [C10] recvWF10(t)
+//@   requires len(srcFile.RelPath) >= 1 && allPlain(srcFile.RelPath)
+//@   # the decoded name list is its own array, not the clean-up list's
+//@   requires ref(srcFile.RelPath) != ref(t.createdFiles)
+//@   assigns t.createdFiles, elemsof("string"), fsExists, madeByUs, mapof(t.fileNameMap)
+//@   ensures [C09] recvWF09(t)
+//@   ensures [C07] recvWF07(t)
+//@   ensures [C10] recvWF10(t)
+//@   ensures [C07,C09] r2 == nil ==> plainName(r1)
+//@   ensures r2 == nil && srcFile.Archive ==> awWF(r0)
+//@   # lemma at each Join: every element after the first is a plain name
+//@   before filepath.Join assert [C07,C09] forall i int {p0[i]} :: 1 <= i && i < len(p0) ==> plainName(p0[i])
+//@ end
+
+//@ # an archive writer unpacks into the destination of the transfer it belongs to
+//@ pure awWF(w fileWriter) bool = typeis(w, "*archiveFileWriter") && \
+//@     same(unboxTo(w, "*archiveFileWriter").path, destDir) && unboxTo(w, "*archiveFileWriter").transfer != nil
+
+//@ func trzszTransfer.newArchiveWriter
+//@   requires same(destPath, destDir)
+//@   requires [C09] within(destDir, fullPath)
+//@   requires [C09] createdIn(t)
+//@   requires [C10] createdMade(t)
+//@   requires [C07] fsMono()
+//@   requires [C07] noClobber(t) ==> !fsExists0[rootOf(fullPath)]
+//@   assigns t.createdFiles, elemsof("string"), fsExists, madeByUs
+//@   ensures [C09] createdIn(t)
+//@   ensures [C10] createdMade(t)
+//@   ensures [C07] fsMono()
+//@   ensures r1 == nil ==> awWF(r0) && unboxTo(r0, "*archiveFileWriter").transfer == t
+//@   ensures forall r int {heap("string")[r]} :: r != old(ref(t.createdFiles)) && r <= old(alloc()) ==> heap("string")[r] == old(heap("string"))[r]
+//@ end
+
+//@ func minInt64 pure
+//@   ensures r0 == min(a, b)
+//@ end
+//@ func minInt pure
+//@   ensures r0 == min(a, b)
+//@ end
+
+//@ func sourceFile.getFileName pure
+//@   ensures len(f.RelPath) > 0 ==> same(r0, f.RelPath[len(f.RelPath) - 1])
+//@ end
+
+//@ # ASSUMED (not proved): base64 + zlib decoding of a header; touches no caller-visible memory
+//@ func decodeString trusted pure
+//@ end
+
+// ===========================================================================
+// C15  archive stream (archive.go)
+// ===========================================================================
+
+//@ # the writer belongs to a receive into the chosen destination
+//@ pure awOK(f *archiveFileWriter) bool = same(f.path, destDir) && f.transfer != nil
+
+//@ func archiveFileWriter.Write
+//@   requires awOK(f)
+//@   requires [C09] recvWF09(f.transfer)
+//@   requires [C07] recvWF07(f.transfer)
+//@   requires [C10] recvWF10(f.transfer)
+//@   ensures awOK(f) && f.transfer == old(f.transfer)
+//@   ensures [C09] recvWF09(f.transfer)
+//@   ensures [C07] recvWF07(f.transfer)
+//@   ensures [C10] recvWF10(f.transfer)
+//@   ensures 0 <= r0 && r0 <= len(p)
+//@   # payload mode: at most the bytes still owed to the current entry go to its file, and are counted
+//@   ensures old(f.left > 0 && f.file != nil) ==> r0 <= old(f.left) && f.left == old(f.left) - r0 && \
+//@       f.file == old(f.file) && same(f.buf, old(f.buf))
+//@   # header mode, no line feed in p: everything is kept for the header, nothing else changes
+//@   ensures !old(f.left > 0 && f.file != nil) && r1 == nil && \
+//@       (forall j int {old(p[j])} :: 0 <= j && j < len(p) ==> old(p[j]) != 10) ==> \
+//@       r0 == len(p) && len(f.buf) == old(len(f.buf)) + len(p) && f.left == old(f.left) && f.file == old(f.file)
+//@   # header mode, first line feed at i: the header ends there; exactly i+1 bytes are consumed
+//@   # (a short count at the entry boundary: the caller presents the rest again)
+//@   ensures !old(f.left > 0 && f.file != nil) && r1 == nil && \
+//@       (exists j int {old(p[j])} :: 0 <= j && j < len(p) && old(p[j]) == 10) ==> \
+//@       r0 >= 1 && old(p[r0 - 1]) == 10 && (forall j int {old(p[j])} :: 0 <= j && j < r0 - 1 ==> old(p[j]) != 10) && f.buf == nil
+//@   # the previous entry's file is closed before the next one is opened
+//@   ensures r1 == nil && f.file != old(f.file) && old(f.file) != nil ==> closedW[old(f.file)]
+//@ end
+
+// ===========================================================================
+// frames of the protocol primitives (transfer.go): receiving or sending a message touches only the
+// input buffer, the line buffer's ghost state and byte arrays - never the file-system ghost, the
+// clean-up list or the name map. (Frame-only contracts: what they compute is specified elsewhere.)
+// ===========================================================================
+
+//@ func trzszBuffer.readLineOnWindows
+//@   requires tbWF(b)
+//@   assigns b.nextBuf, b.nextIdx, b.timeout, b.newTimeout, recvd, bufLen, bufCap, bufArr, elemsof("byte")
+//@   ensures tbWF(b)
+//@   loop 1
+//@     invariant tbWF(b)
+//@   loop 2
+//@     invariant tbWF(b)
+//@ end
+
+//@ func trzszTransfer.checkStop pure
+//@ end
+
+//@ func trzszTransfer.stripTmuxStatusLine
+//@   assigns bufLen, bufCap, bufArr, elemsof("byte")
+//@   # only freshly allocated byte arrays are written; existing buffers keep their ghost state
+//@   ensures forall r int {heap("byte")[r]} :: r <= old(alloc()) ==> heap("byte")[r] == old(heap("byte"))[r]
+//@   ensures forall q int {bufArr[q]} :: q <= old(alloc()) ==> bufArr[q] == old(bufArr)[q]
+//@   loop 1
+//@     invariant forall r int {heap("byte")[r]} :: r <= old(alloc()) ==> heap("byte")[r] == old(heap("byte"))[r]
+//@     invariant forall q int {bufArr[q]} :: q <= old(alloc()) ==> bufArr[q] == old(bufArr)[q]
+//@ end
+
+//@ func trzszTransfer.recvLine
+//@   requires t.buffer != nil && tbWF(t.buffer)
+//@   assigns fields(t.buffer), recvd, bufLen, bufCap, bufArr, elemsof("byte")
+//@   ensures tbWF(t.buffer)
+//@ end
+
+//@ func trzszTransfer.recvCheck
+//@   requires t.buffer != nil && tbWF(t.buffer)
+//@   assigns fields(t.buffer), recvd, bufLen, bufCap, bufArr, elemsof("byte")
+//@   ensures tbWF(t.buffer)
+//@ end
+
+//@ func trzszTransfer.recvString
+//@   requires t.buffer != nil && tbWF(t.buffer)
+//@   assigns fields(t.buffer), recvd, bufLen, bufCap, bufArr, elemsof("byte")
+//@   ensures tbWF(t.buffer)
+//@ end
+
+//@ func trzszTransfer.recvInteger
+//@   requires t.buffer != nil && tbWF(t.buffer)
+//@   assigns fields(t.buffer), recvd, bufLen, bufCap, bufArr, elemsof("byte")
+//@   ensures tbWF(t.buffer)
+//@ end
+
+//@ # ASSUMED: the trace logger writes to its own log file and fields only
+//@ func traceLogger.writeTraceLog trusted pure
+//@ end
+
+//@ func writeAll pure
+//@   loop 1
+//@     invariant 0 <= m && m <= len(data)
+//@ end
+//@ func trzszTransfer.writeAll pure
+//@ end
+//@ func trzszTransfer.sendLine pure
+//@ end
+//@ func trzszTransfer.sendString pure
+//@ end
+//@ func trzszTransfer.sendInteger pure
+//@ end
+//@ func encodeBytes pure
+//@ end
+//@ func encodeString pure
+//@ end
+
+//@ func isWindowsEnvironment pure
+//@ end
+//@ func isRunningOnWindows pure
+//@ end
+
+//@ # ASSUMED: progress callbacks change only the progress display's own state, which no contract
+//@ # of the receiving path mentions (the display itself is verified under C20).
+//@ func progressCallback.onName trusted pure
+//@ end
+//@ func progressCallback.onSize trusted pure
+//@ end
+//@ func progressCallback.onStep trusted pure
+//@ end
+//@ func progressCallback.onNum trusted pure
+//@ end
+//@ func progressCallback.onDone trusted pure
+//@ end
+//@ func progressCallback.setPreSize trusted pure
+//@ end
+
+//@ func trzszTransfer.getNewTimeout pure
+//@ end
+
+//@ func trzszTransfer.recvFileName
+//@   nilable progress
+//@   requires same(path, destDir) && t.buffer != nil && tbWF(t.buffer)
+//@   requires [C09] recvWF09(t)
+//@   requires [C07] recvWF07(t)
+//@   requires [C10] recvWF10(t)
+//@   ensures tbWF(t.buffer)
+//@   ensures [C09] recvWF09(t)
+//@   ensures [C07] recvWF07(t)
+//@   ensures [C10] recvWF10(t)
+//@ end
+
+//@ func trzszTransfer.recvFileNameV3
+//@   nilable progress
+//@   requires same(path, destDir) && t.buffer != nil && tbWF(t.buffer)
+//@   requires [C09] recvWF09(t)
+//@   requires [C07] recvWF07(t)
+//@   requires [C10] recvWF10(t)
+//@   ensures tbWF(t.buffer)
+//@   ensures [C09] recvWF09(t)
+//@   ensures [C07] recvWF07(t)
+//@   ensures [C10] recvWF10(t)
+//@ end
+
+//@ func fileWriter.getFile trusted pure
+//@ end
+//@ func targetFile.marshalTargetFile pure
+//@ end
+//@ func trzszTransfer.recvHash
+//@   requires t.buffer != nil && tbWF(t.buffer)
+//@   assigns fields(t.buffer), recvd, bufLen, bufCap, bufArr, elemsof("byte")
+//@   ensures tbWF(t.buffer)
+//@   ensures r1 == nil ==> r0 != nil && r0 > old(alloc())
+//@ end
+//@ func trzszTransfer.sendHashAck pure
+//@ end
+//@ func trzszTransfer.recvPrefixHash
+//@   nilable progress
+//@   requires t.buffer != nil && tbWF(t.buffer)
+//@   assigns fields(t.buffer), recvd, bufLen, bufCap, bufArr, elemsof("byte")
+//@   ensures tbWF(t.buffer)
+//@   loop 1
+//@     invariant tbWF(t.buffer)
 //@ end
